@@ -1,4 +1,5 @@
 """C09 — a parametric OCP is the family of OCPs with the values written in."""
+import json
 import copy, random
 from .nlpprop import NlpProp, TRUSTED, ASSUMPTIONS, default_build
 from .. import engine, gen
@@ -57,6 +58,13 @@ class C09Prop(NlpProp):
         n = 60 if tier == "quick" else 600
         cps = self.gen_cases(seed + 17, n, self.opts_q if tier == "quick" else self.opts_t, 3)
         cps = [(c, p) for c, p in cps if c["param_values"]["p"]]
+        # a parameter whose value is 0 can multiply a next/prev/offset operand: written in as a constant,
+        # CasADi folds 0*offset(..) away and the instance that would reach outside the horizon is no
+        # longer dropped; the two OCPs then differ by construction (degenerate pair, not compared)
+        def has_off(e):
+            return '"off"' in json.dumps(e)
+        cps = [(c, p) for c, p in cps
+               if not (any(Fr(v) == 0 for v in c["param_values"]["p"]) and has_off(c.get("constraints", [])))]
         folded = [(fold_case(c), [fold_point(q) for q in p]) for c, p in cps]
         ra = engine.run_rockit(cps, jobs=jobs)
         rb = engine.run_rockit(folded, jobs=jobs)
